@@ -12,16 +12,17 @@ E1, all parts exhaustive over the stated bound:
  2. end to end through real generated out-of-line ABI modules: all subsets of size
     <= 2 (quick) / <= 3 (thorough) of the 63 C identifiers, each name declared as
     constant, struct tag, typedef, enum tag, anonymous-struct typedef ('$name' entry)
-    and union tag (module kinds a, b, c), and for the sets of size <= 2 also as
-    enumerator of one shared enum, anonymous-enum typedef next to an enum tag,
+    and union tag (module kinds a, b, c), and for the sets of size <= 2 (quick: those inside
+    CORE12 or with a keyword-like name) also as enumerator of one shared enum, anonymous-enum typedef next to an enum tag,
     anonymous-union typedef next to a struct tag (kinds e, f, g); integer_const /
     lib attribute / typeof (also with the identifier followed by ']', '*', '[', '(',
     ',' instead of the end of the string) for every identifier of the universe (members
     and non-members); plus the full universe (thorough: and all universe-minus-one sets).
  2s. names the type-name fallbacks of the runtime also know (size_t, FILE, _IO_FILE ...),
     declared as something else; the cases that declare _IO_FILE in a process of their own (_c25x.py).
+ 2L. six names of 199..256 characters with a common prefix of 199/200 characters (_c25x.py).
  2i. ffi.include(): the names distributed over a chain A -> (B1 -> C, B2) of four generated
-    modules, every distribution of every set of size <= 2 (thorough 3) of CORE8 (_c25x.py).
+    modules, every distribution of every set of size <= 2 of CORE6 (thorough: <= 3, CORE8) (_c25x.py).
  3. the same through compiled API-mode modules for all subsets of size <= 2 of a collision
     core (+ triples in the thorough tier) and the full universe; include chains of four
     compiled modules; modules whose globals table mixes all entry kinds (_c25x.py).
@@ -46,20 +47,22 @@ META = dict(
     text="(1) all 1.29 M subsets of size <= 4 of a 75-name universe (every string of length <= 3 over {A,a,_,0} that is "
          "an identifier + '$' names of anonymous types), sorted by Python, x 75 probes x 5 search entry points taken "
          "by #include from parse_c_type.c, plus all 2850 contiguous windows and 2774 arithmetic subsequences of the "
-         "sorted universe (every table length 1..75, as exactly-sized heap blocks): every member found at its own index, "
-         "every non-member not found, no sanitizer report; (2) all subsets of size <= 2 (thorough 3) of the 63 "
+         "sorted universe (every table length 1..75, as exactly-sized heap blocks): every member found at its own "
+         "index, every non-member not found, no sanitizer report; (2) all subsets of size <= 2 (thorough 3) of the 63 "
          "identifiers as three real out-of-line ABI modules each (constants + struct tags / typedefs + enum tags / "
-         "anonymous-struct typedefs + union tags), sets of size <= 2 also as enumerators of one enum / anonymous-enum "
-         "typedef + enum tag / anonymous-union typedef + struct tag; every identifier of the 80-name probe universe "
-         "looked up through ffi.integer_const, lib.<name>, ffi.typeof, also inside longer type strings ('char[n]', "
-         "'struct n*', 'enum n(*)(n*,enum n)'); (2s) 8 names that the type-name fallbacks know (size_t, bool, FILE, "
-         "_IO_FILE ...) declared as constants/tags/typedefs, alone and next to each name of CORE6 (modules that declare "
-         "_IO_FILE in a process of their own); (2i) ffi.include(): every distribution over the four modules of a chain A -> (B1 -> C, B2) of every "
-         "set of size <= 2 (thorough 3) of CORE8, 3 module kinds, all names looked up through each of the four ffi/lib "
-         "pairs (delegation loops of lib_obj.c, ffi_obj.c ffi_fetch_int_constant / _fetch_external_struct_or_union); "
-         "(3) a batch of compiled API-mode modules (4 kinds; thorough 6), API-mode include chains, and API modules whose "
-         "globals table mixes functions of the three calling conventions, variables, constants and extern \"Python\" "
-         "entries (lib.<name>, ffi.addressof, def_extern by name, dir(lib)).",
+         "anonymous-struct typedefs + union tags), sets of size <= 2 (quick tier: those inside CORE12) also as "
+         "enumerators of one enum / anonymous-enum typedef + enum tag / anonymous-union typedef + struct tag; every "
+         "identifier of the 80-name probe universe looked up through ffi.integer_const, lib.<name>, ffi.typeof, also "
+         "inside longer type strings ('char[n]', 'struct n*', 'enum n(*)(n*,enum n)'); (2s) 8 names that the type-name "
+         "fallbacks know (size_t, bool, FILE, _IO_FILE ...) declared as constants/tags/typedefs, alone and next to "
+         "each name of CORE6 (modules that declare _IO_FILE in a process of their own); (2L) 6 names of 199..256 "
+         "characters that differ only after 199/200 common characters; (2i) ffi.include(): every distribution over the "
+         "four modules of a chain A -> (B1 -> C, B2) of every set of size <= 2 of CORE6 (thorough: <= 3 of CORE8), 3 "
+         "module kinds, all names looked up through each of the four ffi/lib pairs (delegation loops of lib_obj.c, "
+         "ffi_obj.c ffi_fetch_int_constant / _fetch_external_struct_or_union); (3) a batch of compiled API-mode "
+         "modules (5 kinds; thorough 7), API-mode include chains, and API modules whose globals table mixes functions "
+         "of the three calling conventions, variables, constants and extern \"Python\" entries (lib.<name>, "
+         "ffi.addressof, def_extern by name, dir(lib)).",
     note="the order of a subset is obtained from Python's list.sort of the universe (a total order, so every sorted "
          "subset is a subsequence); probes are the universe itself (names outside it are not probed, except a few "
          "near-miss spellings in the mixed-kind modules); a name declared twice in one C scope (struct n and union n, "
@@ -310,8 +313,8 @@ def routes_for(kind, ffi, lib):
                lambda g: ("pointer", "array", g + 1)),
               ("fnptr_form", "typename",
                lambda u: (lambda ct: (ct.kind, dict(ct.result.relements), ct.args[0].item.length,
-                                      ct.args[1] is ct.result))(T("enum %s(*)(%s*,enum %s)" % (u, u, u))),
-               lambda g: ("function", {"Zq%d" % g: g + 7}, g + 1, True))]
+                                      dict(ct.args[1].relements)))(T("enum %s(*)(%s*,enum %s)" % (u, u, u))),
+               lambda g: ("function", {"Zq%d" % g: g + 7}, g + 1, {"Zq%d" % g: g + 7}))]
     if kind in "bdf":
         R += [("enum_tag", "tag_enum", lambda u: (lambda ct: (ct.kind, dict(ct.relements)))(T("enum " + u)),
                lambda g: ("enum", {"Zq%d" % g: g + 7})),
@@ -502,14 +505,12 @@ def collect(ctx, part, partno, it, ev):
             ctx.violation(sig_for(part, b), dict(b, part=partno))
 
 
-def api_dispatch(item):
+def family_dispatch(item):
     from . import _c25x as X
     fam, payload = item
-    if fam == "set":
-        return work_block(payload)
-    if fam == "chain":
-        return X.chain_block(payload)
-    return X.mixed_block(payload)
+    func = {"set": work_block, "chain": X.chain_block, "mixed": X.mixed_block, "special": X.special_item,
+            "long": X.long_block}[fam]
+    return func(payload)
 
 
 def is_prefix_pair(S):
@@ -582,6 +583,7 @@ def run(ctx):
     k_abi = 2 if ctx.quick else 3
     ev_abi = [0, 0, 0, 0]
     nontrivial = set()
+    abi_items = []
     if want("2"):
         sets = list(enumerate_sets(IDS, k_abi))
         sets.append(tuple(IDS))
@@ -599,33 +601,46 @@ def run(ctx):
             if len(S) in (2, 3):
                 ctx.sample({"part": 2, "set": list(S), "cdef_a": text_for(S, "a"), "cdef_f": text_for(S, "f")})
         core12 = set(CORE12)
-        # kinds e, f, g: every set of size <= 2, the big sets, and (thorough) the triples inside CORE12
-        six = [S for S in sets if len(S) <= 2 or (len(S) == 3 and set(S) <= core12)]
-        three = [S for S in sets if len(S) == 3 and not set(S) <= core12]
+        kwset = set(KW)
+        # kinds e, f, g: thorough: every set of size <= 2 and the triples inside CORE12; quick: the sets of size <= 2
+        # inside CORE12 and the sets with a keyword-like name; both: the full universe
+        if ctx.quick:
+            six = [S for S in sets if len(S) <= 2 and (set(S) <= core12 or set(S) & kwset)]
+        else:
+            six = [S for S in sets if len(S) <= 2 or (len(S) == 3 and set(S) <= core12)]
+        sixset = set(six)
+        three = [S for S in sets if len(S) <= 3 and S not in sixset]
         big = [S for S in sets if len(S) > 3]
         ctx.count("abi_sets.with_kinds_abcefg", len(six) + 1)
         ctx.count("abi_sets.with_kinds_abc_only", len(three) + len(big) - 1)
         items = ([[("abi", "abcefg" if len(S) == len(IDS) else "abc", [S])] for S in big] +
                  [[("abi", "abcefg", blk)] for blk in pool.chunks(six, 30)] +
                  [[("abi", "abc", blk)] for blk in pool.chunks(three, 60)])
-        collect(ctx, "abi_module", 2, pool.pmap(work_block, items), ev_abi)
+        abi_items = [("set", it[0]) for it in items]
+
+    # ---- parts 2s (special names), 2L (long names), 2i (ffi.include() chains), and the pool run of all ABI items ----
+    ev_sp = [0, 0, 0, 0]
+    ev_long = [0, 0, 0, 0]
+    ev_ci = [0, 0, 0, 0]
+    if want("2s"):
+        abi_items = [("special", it) for it in X.special_items(ctx)] + abi_items      # forks and one compilation: early
+    if want("2L"):
+        abi_items += [("long", it) for it in X.long_items(ctx)]
+    if want("2i"):
+        abi_items += [("chain", it) for it in X.chain_abi_items(ctx, nontrivial)]
+    results = {"set": [], "special": [], "long": [], "chain": []}
+    for item, r in pool.pmap(family_dispatch, [[it] for it in abi_items]):
+        results[item[0]].append((item[1], r))
+    if want("2"):
+        collect(ctx, "abi_module", 2, results["set"], ev_abi)
         ctx.log("part 2: %d sets as %d ABI modules, %d lookups, %d of members" % (
             ev_abi[0], ev_abi[3], ev_abi[1], ev_abi[2]))
-
-    # ---- part 2s: special names, every case in its own process --------------------------
-    ev_sp = [0, 0, 0, 0]
     if want("2s"):
-        X.run_special(ctx, ev_sp)
-
-    # ---- part 2L: long names ------------------------------------------------------------
-    ev_long = [0, 0, 0, 0]
+        X.collect_special(ctx, results["special"], ev_sp)
     if want("2L"):
-        X.run_long(ctx, ev_long)
-
-    # ---- part 2i: ffi.include() chains of ABI modules --------------------------------
-    ev_ci = [0, 0, 0, 0]
+        X.collect_long(ctx, results["long"], ev_long)
     if want("2i"):
-        X.run_chains_abi(ctx, ev_ci, nontrivial)
+        X.collect_chains_abi(ctx, results["chain"], ev_ci)
 
     # ---- part 3 (+ 3i, 3m): everything that needs the C compiler, in ONE pool run -----------------
     ev_api = [0, 0, 0, 0]
@@ -660,7 +675,7 @@ def run(ctx):
     mixed = [("mixed", it) for it in X.mixed_items(ctx)] if want("3m") else []
     items = items[:2] + chains + items[2:] + mixed         # a chain = four compilations in a row: early
     results = {"set": [], "chain": [], "mixed": []}
-    for item, r in pool.pmap(api_dispatch, [[it] for it in items]):
+    for item, r in pool.pmap(family_dispatch, [[it] for it in items]):
         results[item[0]].append((item[1], r))
     if want("3"):
         collect(ctx, "api_module", 3, results["set"], ev_api)
@@ -680,14 +695,14 @@ def run(ctx):
                 "search_sorted with a foreign item size}, + every contiguous window and every arithmetic subsequence of "
                 "the sorted universe; part 2: every subset of size <= %d of the 63 identifiers + the "
                 "full universe%s, each as 3 out-of-line ABI modules (6 for the sets of size <= 2%s, the keyword-like "
-                "names and the full universe), 6..9 lookups per module and identifier of the 80-name probe universe; "
+                "names and the full universe: kinds e, f, g), 6..9 lookups per module and identifier of the 80-name probe universe; "
                 "part 2s: %s; part 2L: %s; part 2i: %s; part 3: 2 API-mode modules for every non-empty subset of size <= 2 of %s%s + "
                 "the full universe, further kinds for %s; part 3i: %s; part 3m: %s.  non-trivial (counted over part 2 "
                 "sets and part 2i configurations) = the set contains a prefix pair, a common prefix followed by "
                 "divergence, a case-only difference or an underscore/letter first-character pair; for a chain "
                 "configuration: at least one name is owned by an included module" % (
                     KMAX_C, n, k_abi, "" if ctx.quick else " + all 63 universe-minus-one sets",
-                    "" if ctx.quick else " and the triples of CORE12", X.RULE_SPECIAL, X.RULE_LONG, X.rule_chains_abi(ctx),
+                    " inside CORE12" if ctx.quick else " and the triples of CORE12", X.RULE_SPECIAL, X.RULE_LONG, X.rule_chains_abi(ctx),
                     "CORE6" if ctx.quick else "CORE12",
                     "" if ctx.quick else " and every triple of CORE8",
                     "the prefix pairs of CORE6 (e, f), CORE12 (e, f, g) and 3 keyword-like names (d)" if ctx.quick else
@@ -762,8 +777,11 @@ def replay(detail):
         universe = None
     if "block" in detail:
         # a worker died on this block of sets: re-run it in a child process
-        st, res = X.isolated(work_block, tuple(detail["block"]))
-        print("block of %d set(s):" % len(detail["block"][2]), st, res if st != "ok" else "no crash")
+        if part == "2L":
+            st, res = X.isolated(X.long_block, detail["block"])
+        else:
+            st, res = X.isolated(work_block, tuple(detail["block"]))
+        print("block of sets:", st, res if st != "ok" else "no crash")
         return 1 if st == "crash" else 0
     S = tuple(detail["set"])
     mode = detail["mode"]
